@@ -362,7 +362,8 @@ fn rename_items(p: &mut Project, prefix: &str) {
 pub fn gen_p2(d: &mut Draw, o: &P2Opts) -> P2Project {
     let mut root = gen_project(d, &o.gopts);
     root.cfg.incremental = false;
-    root.cfg.exclude_std = !(o.std_per_mille > 0 && d.below(1000) < o.std_per_mille);
+    // an exhausted choice sequence yields 0 = the simplest alternative (std excluded)
+    root.cfg.exclude_std = !(o.std_per_mille > 0 && d.below(1000) >= 1000 - o.std_per_mille);
     if o.ensure_wildcard {
         ensure_wildcard(d, &mut root);
     }
@@ -541,7 +542,7 @@ pub fn gen_p2(d: &mut Draw, o: &P2Opts) -> P2Project {
         std_user,
         single_def,
     };
-    let force = o.collide_per_mille > 0 && d.below(1000) < o.collide_per_mille;
+    let force = o.collide_per_mille > 0 && d.below(1000) >= 1000 - o.collide_per_mille;
     p.settle_collisions(d, force);
     p
 }
